@@ -9,8 +9,8 @@
  * Each of the three is, by the definition of the bytewise order, a key k with  start <= k < limit  (E2/E3: witness index
  * = new length-1 / new length-2; E1: the precondition) -- the index separator rule of C09 and the premise of C02's
  * "queries between two blocks".  Bounded end-to-end confirmation with the real comparator: group wr_add_step. */
-#include "/repo/mtbl/mtbl-private.h"
-#include "/repo/mtbl/bytes.h"
+#include "mtbl/mtbl-private.h"
+#include "mtbl/bytes.h"
 #include "spec/ghost.h"
 
 size_t vg_k;                 /* universal index: never assigned */
